@@ -836,7 +836,9 @@ fn create_archive(
         return Ok(());
     }
 
-    Ok(())
+    // The legacy batch compressor is no longer wired up: fail instead of reporting success
+    // without having written an archive.
+    anyhow::bail!("--batch mode is not supported by this build (no archive was written); omit --batch")
 }
 
 fn write_bin<P: AsRef<Path>>(path: P, data: &[u8]) -> Result<()> {
